@@ -28,7 +28,7 @@ def run(chk):
 
         def oracle(c, res, kind=kind):
             prev = {}
-            for op, r in zip(c["ops"], res):
+            for op, r in zip(S.resolve_ops(c, False), res):
                 if r[0] == "err":
                     if r[1] not in ("ValueError", "TypeError"):
                         return "add%r raised %s (documented: ValueError/TypeError)" % (tuple(op), r[1])
@@ -55,7 +55,7 @@ def run(chk):
         def classify(c, res, v):
             return None
 
-        core.differential(chk, "ops_manifests:" + kind, cases, "ops_" + kind, model_cases=[c["ops"] for c in cases],
+        core.differential(chk, "ops_manifests:" + kind, cases, "ops_" + kind, model_cases=[S.resolve_ops(c, False) for c in cases],
                           nontrivial=lambda c, r: sum(1 for x in r if x[0] == "ok") >= 2, oracle=oracle, classify=classify,
                           normalise=lambda r: r)
     # dump_for_tree / base path stripping
